@@ -24,6 +24,7 @@ def allowed : String → List String
   | "rebind" => ["ok"]
   | "redial" => ["0"]
   | "midhandshake-conn" => ["closed"]           -- a connection still shaking hands when the socket was closed
+  | "accepted-at-close-conn" => ["closed"]      -- … and one accepted just before Close and given to the handshaker just after
   | "second-listen" => ["addrinuse"]            -- a second listener for an address in use
   | "bystander-dial" => ["ok"]                  -- … whose closing leaves the owner of the address in service
   | "listener-close-keeps-pipes" => ["kept"]   -- Listener.Close alone: the connections it accepted keep working
